@@ -84,7 +84,7 @@ class ListSchema(Schema[ListProps]):
            is_ellipsis(elements_or_type[0]) and is_ellipsis(elements_or_type[-1]):
             raise DeclarationError("`...` must be first or last element")
 
-        return self.__class__(self.props.update(elements=elements_or_type))
+        return self.__class__(self.props.update(elements=list(elements_or_type)))
 
     def __declare_len(self, props: ListProps, length: Any) -> ListProps:
         if not isinstance(length, int):
